@@ -18,7 +18,9 @@ HARNESS = os.path.join(VERIF, "harness")
 OUT = os.path.join(VERIF, "out")
 EVID = os.path.join(VERIF, "evidence")
 if os.path.realpath(REPO) != "/repo":
-    # a scratch copy of the repository (seeded changes): keep /verif/evidence for runs against /repo itself
+    # a scratch copy of the repository (seeded changes): keep /verif/evidence and /verif/out/<id> for runs against /repo
+    # itself, and give every scratch copy its own artefact directory so that several of them can be checked side by side
+    OUT = os.path.join(OUT, "_scratch", os.path.basename(os.path.realpath(REPO)))
     EVID = os.path.join(OUT, "_scratch_evidence")
 TLA_CP = "/opt/veriftools/tla/tla2tools.jar:/opt/veriftools/tla/CommunityModules-deps.jar"
 NCPU = os.cpu_count() or 4
